@@ -143,6 +143,11 @@ int mc_self(void);                 /* model thread id: 0 = harness main, then in
 void mc_obs(const char* fmt, ...);  /* "T<id> <text>\n" appended to the global observation log */
 void mc_end(const char* fmt, ...);  /* appended to the canonical end state */
 void mc_fail(const char* fmt, ...); /* harness-detected failure: status "fail", execution ends */
+void mc_log_sync(int on);           /* 1: the scheduler also logs synchronisation events into the observation log, in order:
+                                       "T1 L0" T1 acquired mutex 0, "T1 A0" re-acquired it after a condition wait, "T1 U0" unlocked,
+                                       "T1 C2" went to sleep on condition variable 2, "T3 S2>1" signal woke T1 ("S2>-" nobody),
+                                       "T3 B2>1,2" broadcast, "E TO1" timeout of T1 fired, "E SP1" spurious wake-up of T1.
+                                       This is how an oracle learns the order in which critical sections were entered. */
 
 /* introspection for end-state functions */
 int mc_thread_blocked_on_cond(int tid);   /* 1 if the thread sleeps in cond_wait/timedwait */
